@@ -187,14 +187,14 @@ def plan(prop, tier):
               # the same figures when the transactions come through a spreadsheet (numbers with many digits, crypto fees, exchange-supplied values)
               B("V", 3, ods=True, configs=cfg_one_method, sample=500 if q else None), B("F", 3, ods=True, configs=cfg_one_method, sample=300 if q else None)]
     elif prop == "C05":
-        mc = [("Y", 3, "valid", "single")] if q else [("Y", 4, "valid", "single")]
+        mc = [("Y", 3, "valid", "single")] if q else [("Y", 3, "valid", "all")]      # (depth 4 of this slice does not finish within the time limit)
         bs = [B("Y", 3 if q else 4, configs=cfg_countries, sample=400 if q else 6000), B("C", 3, configs=cfg_countries, sample=300 if q else 3000),
               # holding periods one second around 1, 365 and 366 days, three UTC offsets: every acquisition / disposal pair, and longer histories
               B("P", 2, configs=cfg_countries, sample=600 if q else None), B("P", 4, sim=150 if q else 3000, depth=4, configs=cfg_countries)]
         if not q:
             bs.append(B("P", 3, configs=cfg_countries, sample=20000))
     elif prop == "C06":
-        mc = [("Y", 3, "valid", "single")] if q else [("Y", 4, "valid", "single")]
+        mc = [("Y", 3, "valid", "single")] if q else [("Y", 3, "valid", "all")]      # (depth 4 of this slice does not finish within the time limit)
         bs = [B("Y", 3 if q else 4, runs=runs_todates, configs=cfg_one_method, sample=1500 if q else 20000),
               B("T", 3, runs=runs_todates, configs=cfg_one_method, sample=1000 if q else 6000),
               B("Z", 3 if q else 4, runs=runs_todates, configs=cfg_one_method, sample=800 if q else 20000),
@@ -230,7 +230,7 @@ def plan(prop, tier):
               B("W", 4, runs=runs_prefixes, configs=cfg_two_methods, sample=5000 if q else None),      # wall-clock order against instant order, exhaustive to 4 transactions in thorough
               B("A", 12, sim=100 if q else 2000, depth=12, runs=runs_todates, configs=cfg_two_methods)]
     elif prop == "C10":
-        mc = [("Y", 3, "valid", "single")] if q else [("Y", 4, "valid", "single")]
+        mc = [("Y", 3, "valid", "single")] if q else [("Y", 3, "valid", "all")]      # (depth 4 of this slice does not finish within the time limit)
         bs = [B("Y", 3 if q else 4, runs=runs_windows, configs=cfg_one_method, sample=700 if q else 8000),
               B("A", 3, runs=runs_windows, configs=cfg_one_method, sample=500 if q else 5000),
               B("B", 3, runs=runs_windows, configs=cfg_one_method, sample=300 if q else 3000),
